@@ -1,0 +1,13 @@
+//go:build verif
+
+package ast
+
+// C03: no script or source text ends the process by exhausting the native stack. Every function of this package that
+// lies on a cycle of the package's call graph (static calls, closures, interface calls resolved by method name inside
+// the
+// package) is listed here; a new one - a helper that calls itself - has to be added with the reason it terminates
+// (seed C03i: a recursive integer power whose exponent never reaches zero for negative values, `2 ** -1` killed the
+// process). Why the listed ones terminate: the String methods and Program.Token recurse over the syntax tree; the
+// parser bounds its depth (MaxDepth, KF-57) and the tree is acyclic by construction (nodes are built bottom-up,
+// children before parents).
+//@ scan[C03.recursion.ast] C03 recursive ast: (*Assign).String (*Block).String (*Call).String (*Case).String (*Const).String (*Control).String (*Defer).String (*For).String (*ForIn).String (*Func).String (*GetAttr).String (*Go).String (*If).String (*In).String (*Index).String (*Infix).String (*List).String (*Map).String (*MultiVar).String (*NotIn).String (*ObjectCall).String (*Pipe).String (*Prefix).String (*Program).String (*Program).Token (*Range).String (*Receive).String (*Return).String (*Send).String (*Set).String (*SetAttr).String (*Slice).String (*Switch).String (*Ternary).String (*Var).String
